@@ -1179,95 +1179,69 @@ impl Blockchain {
             return (false, WALLET_NOT_UPDATED);
         }
 
-        if old_chain.is_empty() {
-            let mut result: WindingResult =
-                WindingResult::Wind(new_chain.len() - 1, false, WALLET_NOT_UPDATED);
-            loop {
-                match result {
-                    WindingResult::Wind(current_wind_index, wind_failure, wallet_status) => {
-                        wallet_update_status |= wallet_status;
-
-                        result = self
-                            .wind_chain(
-                                new_chain,
-                                old_chain,
-                                current_wind_index,
-                                wind_failure,
-                                storage,
-                                configs,
-                            )
-                            .await;
-                    }
-                    WindingResult::Unwind(
-                        current_unwind_index,
-                        wind_failure,
-                        old_chain,
-                        wallet_status,
-                    ) => {
-                        wallet_update_status |= wallet_status;
-                        result = self
-                            .unwind_chain(
-                                new_chain,
-                                old_chain.as_slice(),
-                                current_unwind_index,
-                                wind_failure,
-                                storage,
-                                configs,
-                            )
-                            .await;
-                    }
-                    WindingResult::FinishWithSuccess(wallet_updated) => {
-                        return (true, wallet_update_status | wallet_updated)
-                    }
-                    WindingResult::FinishWithFailure => return (false, wallet_update_status),
-                }
-            }
+        let mut result: WindingResult = if old_chain.is_empty() {
+            WindingResult::Wind(new_chain.len() - 1, false, WALLET_NOT_UPDATED)
         } else if !new_chain.is_empty() {
-            let mut result = WindingResult::Unwind(0, true, old_chain.to_vec(), WALLET_NOT_UPDATED);
-            loop {
-                match result {
-                    WindingResult::Wind(current_wind_index, wind_failure, wallet_status) => {
-                        wallet_update_status |= wallet_status;
-                        result = self
-                            .wind_chain(
-                                new_chain,
-                                old_chain,
-                                current_wind_index,
-                                wind_failure,
-                                storage,
-                                configs,
-                            )
-                            .await;
-                    }
-                    WindingResult::Unwind(
-                        current_wind_index,
-                        wind_failure,
-                        old_chain,
-                        wallet_status,
-                    ) => {
-                        wallet_update_status |= wallet_status;
-                        result = self
-                            .unwind_chain(
-                                new_chain,
-                                old_chain.as_slice(),
-                                current_wind_index,
-                                wind_failure,
-                                storage,
-                                configs,
-                            )
-                            .await;
-                    }
-                    WindingResult::FinishWithSuccess(wallet_updated) => {
-                        return (true, wallet_update_status | wallet_updated);
-                    }
-                    WindingResult::FinishWithFailure => {
-                        return (false, wallet_update_status);
-                    }
-                }
-            }
+            WindingResult::Unwind(0, false, old_chain.to_vec(), WALLET_NOT_UPDATED)
         } else {
             warn!("lengths are inappropriate");
-            (false, wallet_update_status)
+            return (false, wallet_update_status);
+        };
+        loop {
+            match result {
+                WindingResult::Wind(current_wind_index, wind_failure, wallet_status) => {
+                    wallet_update_status |= wallet_status;
+                    // once winding the new chain has failed, the chain being
+                    // wound is the old (known good) chain which we restore.
+                    let chain_to_wind = if wind_failure { old_chain } else { new_chain };
+                    result = self
+                        .wind_chain(
+                            chain_to_wind,
+                            old_chain,
+                            current_wind_index,
+                            wind_failure,
+                            storage,
+                            configs,
+                        )
+                        .await;
+                }
+                WindingResult::Unwind(
+                    current_unwind_index,
+                    wind_failure,
+                    chain_to_unwind,
+                    wallet_status,
+                ) => {
+                    wallet_update_status |= wallet_status;
+                    result = self
+                        .unwind_chain(
+                            new_chain,
+                            chain_to_unwind.as_slice(),
+                            current_unwind_index,
+                            wind_failure,
+                            storage,
+                            configs,
+                        )
+                        .await;
+                    if wind_failure {
+                        if let WindingResult::Wind(_, _, wallet_status) = result {
+                            // the partially wound new chain is unwound again,
+                            // restore the old chain (if there was one).
+                            result = if old_chain.is_empty() {
+                                wallet_update_status |= wallet_status;
+                                WindingResult::FinishWithFailure
+                            } else {
+                                WindingResult::Wind(old_chain.len() - 1, true, wallet_status)
+                            };
+                        }
+                    }
+                }
+                WindingResult::FinishWithSuccess(wallet_updated) => {
+                    return (true, wallet_update_status | wallet_updated);
+                }
+                WindingResult::FinishWithFailure => {
+                    return (false, wallet_update_status);
+                }
+            }
         }
     }
 
@@ -1414,7 +1388,7 @@ impl Blockchain {
                 return WindingResult::FinishWithSuccess(wallet_updated);
             }
 
-            WindingResult::Wind(current_wind_index - 1, false, wallet_updated)
+            WindingResult::Wind(current_wind_index - 1, wind_failure, wallet_updated)
         } else {
             // we have had an error while winding the chain. this requires us to
             // unwind any blocks we have already wound, and rewind any blocks we
@@ -1429,6 +1403,10 @@ impl Blockchain {
                 block.id,
                 block.hash.to_hex()
             );
+            if wind_failure {
+                // the old chain does not validate any more. nothing to fall back to.
+                return WindingResult::FinishWithFailure;
+            }
             if current_wind_index == new_chain.len() - 1 {
                 // this is the first block we have tried to add
                 // and so we can just roll out the older chain
